@@ -87,7 +87,8 @@ Definition created_file g id := {| g_busy := g_busy g; g_tracts := g_tracts g;
 Definition g0 : gst := {| g_busy := []; g_tracts := []; g_files := []; g_gens := []; g_opens := 0; g_closes := 0 |}.
 
 (* ---------- operations ---------- *)
-Inductive kind := KCreate | KWrite | KRead | KStat | KSetVersion | KPull | KGCOld | KGCGone | KCheck | KPack | KScrub.
+Inductive kind := KCreate | KWrite | KRead | KStat | KSetVersion | KPull | KGCOld | KGCGone | KCheck | KPack | KScrub
+  | KGoneOld.   (* the gone path of GCTracts BEFORE fix ab74e69 (no tract lock); kept for the REFUTED regression witnesses only *)
 
 (* o_pack (PackTracts): per source tract (offset, expected length, replies of its From hosts in order (err, data)) *)
 Record opd := { o_kind : kind; o_tract : Z; o_a1 : Z; o_a2 : Z; o_a3 : Z; o_data : list Z; o_srcs : list (Z * list Z);
@@ -95,9 +96,9 @@ Record opd := { o_kind : kind; o_tract : Z; o_a1 : Z; o_a2 : Z; o_a3 : Z; o_data
 
 Definition lock_mode (k : kind) : mode :=
   match k with
-  | KCreate | KWrite | KSetVersion | KGCOld => MW
+  | KCreate | KWrite | KSetVersion | KGCOld | KGCGone => MW
   | KPull | KPack => MLW
-  | KRead | KStat | KCheck | KScrub | KGCGone => MR   (* GCGone takes no lock at all; value unused *)
+  | KRead | KStat | KCheck | KScrub | KGoneOld => MR   (* the old gone path took no lock at all; value unused *)
   end.
 
 Definition is_reader (k : kind) : bool := match k with KRead | KStat | KCheck | KScrub => true | _ => false end.
@@ -190,7 +191,7 @@ Definition busy_result (k : kind) : list Z :=
   | KStat => [c18_e_TooBusy; 0; -1]
   | KSetVersion => [c18_e_TooBusy; 0]
   | KCheck => [0]
-  | KGCGone => []
+  | KGoneOld | KGCGone => []     (* GCTracts returns nothing; a busy tract is skipped *)
   | KScrub => [-1]
   | _ => [c18_e_TooBusy]
   end.
@@ -207,7 +208,8 @@ Definition do_close (g : gst) (id : Z) (l : loc) (inj : Z) : gst * loc :=
 (* continuation after removeTract returned [e] *)
 Definition rm_cont (o : opd) (g : gst) (l : loc) (e : Z) : gst * pc * loc :=
   match o_kind o with
-  | KGCGone => (g, PDone, set_res l [])
+  | KGoneOld => (g, PDone, set_res l [])
+  | KGCGone => (g, PUnlock, set_res l [])
   | KGCOld => (g, PUnlock, set_res l [e])
   | KPack => if negb (e =? c18_e_NoError) then (g, PUnlock, set_res l [e]) else (g, PCOpen, l)
   | _ => if l_k l =? 3 then (g, PPullEval, l)
@@ -258,16 +260,16 @@ Definition step (V : variant) (g : gst) (o : opd) (p : pc) (l : loc) (inj : Z) :
   | PStart =>
       match k with
       | KSetVersion => if o_a1 o <=? 1 then Some (g, PDone, set_res l [c18_e_BadVersion; 0]) else Some (g, PLock, l)
-      | KGCGone => Some (g, PRmLookup, l)
+      | KGoneOld => Some (g, PRmLookup, l)
       | KPack => if check_spec (o_pack o) (o_a1 o) then Some (g, PLock, l) else Some (g, PDone, set_res l [c18_e_InvalidArgument])
       | _ => Some (g, PLock, l)
       end
   | PLock =>
-      match k with KGCGone => Some (g, PRmLookup, l) | _ =>    (* GCGone never locks (unreachable) *)
+      match k with KGoneOld => Some (g, PRmLookup, l) | _ =>    (* GCGone never locks (unreachable) *)
       match try_lock_once V (g_busy g) id (lock_mode k) with
       | (b, true, _) =>
           Some (with_busy g b,
-                match k with KCreate => PCLookup | KPull => PPullLoop | KPack => PRmLookup | KScrub => PScrub | _ => PLookup end, l)
+                match k with KCreate => PCLookup | KPull => PPullLoop | KPack | KGCGone => PRmLookup | KScrub => PScrub | _ => PLookup end, l)
       | (_, false, true) => None
       | (_, false, false) => Some (g, PDone, set_res l (busy_result k))
       end end
@@ -375,7 +377,7 @@ Definition step (V : variant) (g : gst) (o : opd) (p : pc) (l : loc) (inj : Z) :
       | KPull =>
           if (e =? c18_e_NoError) && (o_a1 o <? l_v l1) then Some (g1, PPullEval, set_ret l1 c18_e_InvalidState)
           else Some (g1, PRmLookup, set_k l1 2)
-      | KGCGone | KPack | KScrub => Some (g1, PUnlock, l1)
+      | KGoneOld | KGCGone | KPack | KScrub => Some (g1, PUnlock, l1)
       end
   | PRmLookup =>
       match get id (g_tracts g) with
@@ -493,7 +495,7 @@ Definition step (V : variant) (g : gst) (o : opd) (p : pc) (l : loc) (inj : Z) :
       if l_ret l =? c18_e_NoError then Some (g, PUnlock, set_res l [c18_e_NoError])
       else Some (g, PPullLoop, set_src l (S (l_src l)))
   | PUnlock =>
-      match k with KGCGone => Some (g, PDone, l) | _ =>
+      match k with KGoneOld => Some (g, PDone, l) | _ =>
       match unlock (g_busy g) id (lock_mode k) with
       | Some b => Some (with_busy g b, PDone, l)
       | None => Some (g, PCrash, l)
@@ -536,7 +538,7 @@ Fixpoint run_sched (V : variant) (s : sys) (sched : list (nat * Z)) : sys :=
 (* does the thread hold its tract lock? (a function of the program counter) *)
 Definition holding (k : kind) (p : pc) : bool :=
   match k with
-  | KGCGone => false
+  | KGoneOld => false
   | _ => match p with PStart | PLock | PDone | PCrash => false | _ => true end
   end.
 
